@@ -1164,9 +1164,9 @@ class URL:
     def with_query(self, query: Query) -> "URL": ...
 
     @overload
-    def with_query(self, **kwargs: QueryVariable) -> "URL": ...
+    def with_query(self, /, **kwargs: QueryVariable) -> "URL": ...
 
-    def with_query(self, *args: Any, **kwargs: Any) -> "URL":
+    def with_query(self, /, *args: Any, **kwargs: Any) -> "URL":
         """Return a new URL with query part replaced.
 
         Accepts any Mapping (e.g. dict, multidict.MultiDict instances)
@@ -1189,9 +1189,9 @@ class URL:
     def extend_query(self, query: Query) -> "URL": ...
 
     @overload
-    def extend_query(self, **kwargs: QueryVariable) -> "URL": ...
+    def extend_query(self, /, **kwargs: QueryVariable) -> "URL": ...
 
-    def extend_query(self, *args: Any, **kwargs: Any) -> "URL":
+    def extend_query(self, /, *args: Any, **kwargs: Any) -> "URL":
         """Return a new URL with query part combined with the existing.
 
         This method will not remove existing query parameters.
@@ -1217,9 +1217,9 @@ class URL:
     def update_query(self, query: Query) -> "URL": ...
 
     @overload
-    def update_query(self, **kwargs: QueryVariable) -> "URL": ...
+    def update_query(self, /, **kwargs: QueryVariable) -> "URL": ...
 
-    def update_query(self, *args: Any, **kwargs: Any) -> "URL":
+    def update_query(self, /, *args: Any, **kwargs: Any) -> "URL":
         """Return a new URL with query part updated.
 
         This method will overwrite existing query parameters.
